@@ -1,2 +1,3 @@
+@neg_current.setter
 def spec(self, value):
     self.neg_current_.push(value, self.inplace)
